@@ -106,8 +106,13 @@ func buildNode(cfg map[string]interface{}, src execution.Node) execution.Node {
 	case "lookup":
 		tl, _ := cfg["table"].([]interface{})
 		recs := make([]execution.Record, len(tl))
+		fl, _ := cfg["tflags"].([]interface{})
 		for i := range tl {
-			recs[i] = execution.NewRecord(vals.ToValues(tl[i]), false, execution.Record{}.EventTime)
+			retraction := false
+			if i < len(fl) {
+				retraction, _ = fl[i].(bool)
+			}
+			recs[i] = execution.NewRecord(vals.ToValues(tl[i]), retraction, execution.Record{}.EventTime)
 		}
 		joined := nodes.NewFilter(nodes.NewInMemoryRecords(recs), &outerEq{outer: vals.Int(cfg["col"]) - 1, inner: vals.Int(cfg["jcol"]) - 1})
 		return nodes.NewLookupJoin(src, joined)
